@@ -90,3 +90,16 @@ Theorem C02_sign_verify_source_is_model : forall vs ext w sigs,
   cose_SignMessage_Verify vs ext w sigs = verify_decoded vs ext w sigs.
 Proof. exact gen_sign_verify. Qed.
 Print Assumptions C02_sign_verify_source_is_model.
+
+(* ---- on the regenerated source: acceptance means that EVERY entry of the signature array — the last and the earlier ones,
+   repeated ones included — found its verifier by kid, passed the gate of its own protected bucket and was accepted by
+   that verifier over the Sig_structure of its own received protected bytes (no entry is skipped, none decides alone) *)
+Theorem C02_sign_verify_source_checks_every_entry : forall vs ext w sigs,
+  cose_SignMessage_Verify vs ext w (Some sigs) = Ok tt ->
+  sigs <> [] /\
+  Forall (fun s => exists v tbs,
+            lookup_prim vs (get_bytes_ (omap (se_unprot s)) 4) = Some v /\ consume_gate (se_prot s) (sg_key v) = true /\
+            structure KSign (w_prot w) (Some (se_raw s)) ext (w_payload w) = Ok tbs /\
+            sg_verify v tbs (match se_sig s with Some b => b | None => [] end) = true) sigs.
+Proof. exact gen_sign_verify_every_entry. Qed.
+Print Assumptions C02_sign_verify_source_checks_every_entry.
